@@ -1,6 +1,7 @@
 """C04 - V-curve selection is optimal on the grid and self-consistent."""
 from __future__ import annotations
 
+import sys
 import math
 
 import numpy as np
@@ -306,3 +307,9 @@ def run(ctx):
         sub_accessor(case)
 
     ctx.given("accessor", cube_case(True), ctx.n(150, 2000), fn=f_acc)
+
+
+from harness import history as _history  # noqa: E402
+
+_history.install(sys.modules[__name__], {"whitsvc": _history.q_whitsvc}, {"whitsvc": _history.WHITSVC_ARGS}, n=(100, 1200), dtypes=("int16", "float64"),
+                 attr_values=(-3000, 0, -9999), cells=_history.NDVI_CELLS)
